@@ -31,6 +31,23 @@ func init() {
 				r := &Rng{s: seed + uint64(i)*7919}
 				var ks []kept
 				for j := 0; j < n; j++ {
+					if r.Chance(10) {
+						// a call that fails half way (unencodable record after a good entry): whatever it does to
+						// the pooled objects on its error path must not disturb anybody else's message
+						fl := protocol.EntryList{
+							{Timestamp: protocol.EventTime{Time: time.Unix(1, 1)}, Record: map[string]interface{}{"p": "good"}},
+							{Timestamp: protocol.EventTime{Time: time.Unix(1, 2)}, Record: map[string]interface{}{"p": make(chan int)}},
+						}
+						var ferr error
+						if r.Bool() {
+							_, ferr = protocol.NewPackedForwardMessage("t", fl)
+						} else {
+							_, ferr = protocol.NewCompressedPackedForwardMessage("t", fl)
+						}
+						if ferr == nil {
+							bad[i]++
+						}
+					}
 					ne := 1 + r.Intn(6)
 					el := make(protocol.EntryList, ne)
 					var want []byte
